@@ -1,7 +1,8 @@
 GROUP = {
     # emit_core with NO cargo features (no_std, no alloc)
     "stub_sets": [],
-    "kani_args": ["-Z", "stubbing"],
+    # assertion reach checks off (measured 2.5x faster): vacuity is guarded by kani::cover! in every harness and by the mutant twins
+    "kani_args": ["-Z", "stubbing", "--no-assertion-reach-checks"],
     # modules of the harness crate whose items the generated playback tests need in scope
     "modules": ["c15_ts", "c15_path", "c16_tpl", "rec", "c01_emit", "c02_props"],
 }
